@@ -532,7 +532,12 @@ class World:
         e_list = elems if elems is not None else list(
             s.case.mesh.leaf_elements)
         unit = {'UnitSquare': 1.0, 'PiSquare': np.pi, 'LShape': 1.0}[s.curve]
-        if any(e.h_x > unit * (1 + 1e-12) for e in e_list):
+        # linform's domain (C08 / C16): dyadic sub-intervals [k/2^l,
+        # (k+1)/2^l] of a unit piece with l <= 10; deeper targeting is not
+        # promised (on the pi square it fails from l = 21 on next to a
+        # corner with coordinate 0, where the relative tolerance vanishes)
+        if any(e.h_x > unit * (1 + 1e-12) or e.h_x < unit / 1024 * (1 - 1e-9)
+               for e in e_list):
             # element longer than a unit piece: outside linform's precondition
             self.cov.inc('skipped.op_m0_precondition')
             return
